@@ -62,8 +62,8 @@ RULE = ('random schemas (1-5 classes, 0-6 attributes of every core type in every
         'reserved words, M/MC and (one name in twelve) near-keywords such as null / key / integer in every letter case; simple, reflexive-with-phrases, association-class, subtype relationships; 0-3 '
         'identifiers per class) with populations built through the API, values weighted towards the hazards of the '
         'text format (integers at the 8/31/53/63/64-bit boundaries); plus a sweep placing every reserved word in every identifier '
-        'position; fixed families: unset-relink (open finding), boundary (255/256/257 rows, 255/256 attributes), twins (two of '
-        'everything), two generations at one path; two of seven extra load routes per case; the ORIGINAL of every comparison is the description computed from the generated spec alone (`gen_schema.spec_dump`), the model built through the API must read like it; a case is non-trivial '
+        'position; fixed families: unset-relink (open finding), shared-ref (a referential attribute shared by two / three associations, instances related across only the first, only the second, both, none), boundary (255/256/257 rows, 255/256 attributes), twins (two of '
+        'everything), two generations at one path; two of seven extra load routes per case; the ORIGINAL of every comparison is the description computed from the generated spec alone (`gen_schema.spec_dump`), the model built through the API must read like it (`original-differs-from-input`: a validity check of the case, model under test = generated spec); a case is non-trivial '
         'when it has rows and at least one hazard value or link; distinct = distinct model description')
 EXHAUSTIVE = {'quick': False, 'thorough': False}
 ASSUMPTIONS = [
@@ -192,6 +192,51 @@ def _twins_specs():
         yield {'classes': [p, q], 'assocs': assocs, 'rows': rows, 'links': links, 'int_rel_ids': bool(variant)}
 
 
+def _shared_ref_specs():
+    """A REFERENTIAL ATTRIBUTE SHARED BY TWO ASSOCIATIONS (Booking.Holder_Id refers to Person.Id across R1 and to Company.Id
+    across R2, the usual shape of shared referentials): bookings related across only the first-defined association, only the
+    second, both (then both keys are equal) and none; the key values of the two referred classes are otherwise disjoint, so
+    that the values denote exactly the links.  Every key type, both definition orders, a shared composite key."""
+    def end(ci, keys, many, cond, phrase=''):
+        return {'ci': ci, 'keys': keys, 'many': many, 'cond': cond, 'phrase': phrase}
+    pools = {'INTEGER': ([1, 2, 7], [11, 12, 7]), 'STRING': (['p1', "p'2", 'both'], ['c1', 'c--2', 'both']),
+             'UNIQUE_ID': ([1, 2, 2 ** 100], [11, 12, 2 ** 100]), 'integer': ([-1, 2 ** 64, 5], [3, 4, 5])}
+    for ty, (pvals, cvals) in pools.items():
+        for swap in (False, True):
+            person = {'kind': 'Person', 'attrs': [['Id', ty], ['Name', 'STRING']], 'idents': [['I1', ['Id']]], 'roles': ['key', 'plain']}
+            company = {'kind': 'Company', 'attrs': [['Id', ty]], 'idents': [['I1', ['Id']]], 'roles': ['key']}
+            booking = {'kind': 'Booking', 'attrs': [['N', 'INTEGER'], ['Holder_Id', ty]], 'idents': [['I1', ['N']]], 'roles': ['key', 'ref']}
+            assocs = [{'rel': 1, 'src': end(2, ['Holder_Id'], True, True), 'tgt': end(0, ['Id'], False, True)},
+                      {'rel': 2, 'src': end(2, ['Holder_Id'], True, True), 'tgt': end(1, ['Id'], False, True)}]
+            if swap:
+                assocs.reverse()
+            a_p, a_c = (1, 0) if swap else (0, 1)
+            rows = [{'ci': 0, 'vals': [v, 'n%d' % k]} for k, v in enumerate(pvals)] + [{'ci': 1, 'vals': [v]} for v in cvals] + \
+                   [{'ci': 2, 'vals': [k, None]} for k in range(1, 7)]
+            # bookings are rows 6..11: only Person, only Company, both (the equal keys), none, only Person (shared target), only Company
+            links = [{'assoc': a_p, 'src': 6, 'tgt': 0}, {'assoc': a_c, 'src': 7, 'tgt': 3},
+                     {'assoc': a_p, 'src': 8, 'tgt': 2}, {'assoc': a_c, 'src': 8, 'tgt': 5},
+                     {'assoc': a_p, 'src': 10, 'tgt': 0}, {'assoc': a_c, 'src': 11, 'tgt': 4}]
+            yield {'classes': [person, company, booking], 'assocs': assocs, 'rows': rows, 'links': links, 'int_rel_ids': swap}
+    # a shared COMPOSITE referential key, and a third association over the same attribute
+    for variant in range(2):
+        a = {'kind': 'A', 'attrs': [['X', 'INTEGER'], ['Y', 'INTEGER']], 'idents': [['I1', ['X', 'Y']]], 'roles': ['key', 'key']}
+        b = {'kind': 'B', 'attrs': [['X', 'INTEGER'], ['Y', 'INTEGER'], ['S', 'STRING']], 'idents': [['I1', ['X', 'Y']]], 'roles': ['key', 'key', 'plain']}
+        c = {'kind': 'C', 'attrs': [['X', 'INTEGER'], ['Y', 'INTEGER']], 'idents': [['I1', ['Y', 'X']]], 'roles': ['key', 'key']}
+        r = {'kind': 'Ref', 'attrs': [['N', 'INTEGER'], ['P', 'INTEGER'], ['Q', 'INTEGER']], 'idents': [], 'roles': ['plain', 'ref', 'ref']}
+        assocs = [{'rel': 1, 'src': end(3, ['P', 'Q'], True, True), 'tgt': end(0, ['X', 'Y'], False, True)},
+                  {'rel': 2, 'src': end(3, ['P', 'Q'], True, True), 'tgt': end(1, ['X', 'Y'], False, True)}]
+        if variant:
+            assocs.append({'rel': 3, 'src': end(3, ['Q', 'P'], True, True), 'tgt': end(2, ['X', 'Y'], False, True)})
+        rows = [{'ci': 0, 'vals': [1, 2]}, {'ci': 0, 'vals': [2, 1]}, {'ci': 1, 'vals': [3, 4, 'b']}, {'ci': 1, 'vals': [4, 3, "b'"]},
+                {'ci': 2, 'vals': [5, 6]}, {'ci': 2, 'vals': [8, 9]}] + [{'ci': 3, 'vals': [k, None, None]} for k in range(5)]
+        links = [{'assoc': 0, 'src': 6, 'tgt': 0}, {'assoc': 0, 'src': 7, 'tgt': 1}, {'assoc': 1, 'src': 8, 'tgt': 2},
+                 {'assoc': 1, 'src': 9, 'tgt': 3}]
+        if variant:
+            links.append({'assoc': 2, 'src': 10, 'tgt': 4})         # Ref.Q = C.X, Ref.P = C.Y
+        yield {'classes': [a, b, c, r], 'assocs': assocs, 'rows': rows, 'links': links, 'int_rel_ids': False}
+
+
 NONFINITE = [float('inf'), float('-inf'), float('nan')]
 
 
@@ -237,6 +282,9 @@ def generate(ctx):
         yield _mk_case(spec, rng, 'null-key-link')
     for spec in _boundary_specs():
         yield _mk_case(spec, rng, 'boundary')
+    srng = ctx.rng.fork('shared-ref')                 # a PRNG of its own: the other cases stay what they were
+    for spec in _shared_ref_specs():
+        yield _mk_case(spec, srng, 'shared-ref')
     for spec in _twins_specs():
         yield _mk_case(spec, rng, 'twins', regen=True)
     for k in range(3):
